@@ -124,6 +124,12 @@ Theorem C04_pattern_reads_in_name_order : forall chk lfix listing pb names,
   Sorted.StronglySorted name_le (sort_by_name listing) /\ Permutation (sort_by_name listing) listing.
 Proof. intros. split; [reflexivity|apply concatenate_pattern_name_order]. Qed.
 Print Assumptions C04_pattern_reads_in_name_order.
+(* a single name that IS a file: that file's events, whatever the pattern reading of the name would match *)
+Theorem C04_existing_name_is_literal : forall chk lfix fw l1 l2 pb names,
+  concatenate_name chk lfix (Some fw) l1 pb names = concatenate_name chk lfix (Some fw) l2 pb names /\
+  concatenate_name chk lfix (Some fw) l1 pb names = concatenate_gen chk lfix [fw] pb names.
+Proof. intros. split; reflexivity. Qed.
+Print Assumptions C04_existing_name_is_literal.
 Example C04_pattern_example :
   map fst (sort_by_name [(5, [1]); (2, [2]); (9, [3]); (3, [4])]) = [2; 3; 5; 9] /\
   sort_by_name [(5, [1]); (2, [2]); (9, [3]); (3, [4])] = sort_by_name [(9, [3]); (3, [4]); (2, [2]); (5, [1])].
